@@ -98,9 +98,7 @@ fn c07_body(lay: Layout, msg: &mut [u8], split: Split) -> Obs {
     // the pending request: arbitrary unique identifier, origin timestamp / client cookie, deadline
     let req_uid: [u8; 32] = kani::any();
     let req_origin: u64 = kani::any();
-    let deadline_s: i64 = kani::any();
-    let deadline_n: u32 = kani::any();
-    kani::assume(deadline_s >= 0 && deadline_s < (1 << 40) && deadline_n < 1_000_000_000);
+    let dl = any_deadline();
     let uid_match: bool = kani::any();
     let origin_match: bool = kani::any();
     let authentic: bool = lay.authentic;
@@ -123,7 +121,7 @@ fn c07_body(lay: Layout, msg: &mut [u8], split: Split) -> Obs {
     sh::set_tries(&mut src, tries);
     sh::set_have_deny(&mut src, have_deny);
     sh::set_stratum(&mut src, stratum0);
-    let deadline = tokio::time::Instant::from_std(stubs::make_instant(deadline_s, deadline_n));
+    let deadline = deadline_from_now(&dl);
     sh::set_pending(&mut src, Some((th::ts_from_raw(req_origin), Some(req_uid), deadline)));
     let req_origin_bytes = req_origin.to_be_bytes();
 
@@ -227,8 +225,8 @@ fn c07_body(lay: Layout, msg: &mut [u8], split: Split) -> Obs {
     if split == Split::AuthnakKiss {
         kani::assume(authnak_kiss && !may_accept);
     }
-    // the pending request has not expired at the first clock reading of handle_incoming
-    let timely = unsafe { (deadline_s, deadline_n) >= (stubs::NOW_SECS[0], stubs::NOW_NANOS[0]) };
+    // the pending request has not expired at the clock reading of handle_incoming (ghost clock)
+    let timely = ghost_in_time(deadline);
 
     // ---- the call under test
     let (racts, rn) = collect_actions(src.handle_incoming(msg, th::ts_from_raw(send_raw), th::ts_from_raw(recv_raw)));
